@@ -19,7 +19,7 @@ PID = "C19"
 POOL_FULL = [None, "Table 2", "table 2", "Sheet 2", "SHEET 2", "X", "", "É"]
 POOL_QUICK = [None, "Table 2", "table 2", "Sheet 2", "SHEET 2", ""]
 POOL_MIN = [None, "Table 2", "table 2"]
-LOOKUP_NAMES = ["Table 1", "table 1", "Table 2", "table 2", "TABLE 2", "Sheet 1", "sheet 1", "Sheet 2", "SHEET 2", "sheet 2", "X", "x", "", "É", "é",
+LOOKUP_NAMES = ["Table 0", "Table 01", "Sheet 0", "Sheet 01", "Table 1", "table 1", "Table 2", "table 2", "TABLE 2", "Sheet 1", "sheet 1", "Sheet 2", "SHEET 2", "sheet 2", "X", "x", "", "É", "é",
                 "Table 3", "Sheet 3", "nope"]
 MAX_ITEMS = 6
 _n = [0]
@@ -216,14 +216,19 @@ SPECS = {
     # every (query, rename, add) order is a history - e.g. refused add, rename of a sibling, add of its case variant
     "tables3": Spec([None, "table 1", "Table 2", "table 2"], ["Table 2", "table 1"], kinds=("table",)),
     "sheets3": Spec([None, "sheet 1", "Sheet 2", "sheet 2"], ["Sheet 2", "sheet 1"], kinds=("sheet",)),
+    # names that look generated but are not what the generator would produce (zero, leading zero, the next number taken)
+    "tablesgen": Spec([None, "Table 0", "Table 01", "Table 2"], ["Table 0"], kinds=("table",)),
+    "sheetsgen": Spec([None, "Sheet 0", "Sheet 01", "Sheet 2"], ["Sheet 0"], kinds=("sheet",)),
 }
 
 
 def plan(tier):
     if tier == "quick":
-        return [("wide", ["fresh:", "fixture:issue-77.numbers"], 2, True), ("tables3", ["fresh:"], 3, True), ("sheets3", ["fresh:"], 3, True), ("min", ["fixture:test-1.numbers"], 2, True)]
+        return [("wide", ["fresh:", "fixture:issue-77.numbers"], 2, True), ("tables3", ["fresh:"], 3, True), ("sheets3", ["fresh:"], 3, True), ("tablesgen", ["fresh:"], 3, True), ("sheetsgen", ["fresh:"], 3, True),
+                ("min", ["fixture:test-1.numbers"], 2, True)]
     return [("full", ["fresh:", "fixture:issue-77.numbers", "fixture:test-1.numbers"], 2, True), ("wide", ["fresh:", "fixture:issue-77.numbers"], 3, True),
-            ("tables3", ["fresh:", "fixture:issue-77.numbers"], 4, True), ("sheets3", ["fresh:"], 4, True), ("min", ["fresh:"], 4, True)]
+            ("tables3", ["fresh:", "fixture:issue-77.numbers"], 4, True), ("sheets3", ["fresh:"], 4, True), ("tablesgen", ["fresh:"], 4, True), ("sheetsgen", ["fresh:"], 4, True),
+            ("min", ["fresh:"], 4, True)]
 
 
 def main():
